@@ -23,7 +23,7 @@ EXPLANATION = (
     "text converted, conversion errors propagate.")
 NOT_DECIDED = ("argparse's own resolution of defaults and option polarity, config-file discovery on disk, quote stripping "
                "on concrete -D strings, the order of list-valued options inside configparser")
-TECHNIQUE = "static analysis: must-precede rule on Configuration.__init__, table-consistency rules on OPTIONS and the two config readers (sibling agreement), abstract evaluation of the path coupling, getas decision table and shared-defaults effect rule"
+TECHNIQUE = "static analysis: must-precede rule on Configuration.__init__, table-consistency rules on OPTIONS and the two config readers (sibling agreement), abstract evaluation of the path coupling, getas decision table and shared-defaults effect rule; static constant propagation of the string-level glue (the source interpreted on enumerated literal inputs, stdlib calls folded) against oracles written in the rule"
 
 
 def run(chk, ix, tier):
